@@ -24,7 +24,7 @@ PROP = dict(
          "version 5 (<= 4 / <= 3 over {00,01,02,80} under 4 / 3), every CONNECT tail of length <= 5 over 7 bytes after a "
          "valid protocol header, all 256 header bytes x 8 tails; (c) random bodies biased to property identifiers and "
          "1-3 random mutations of real encoder outputs. thorough: 9-letter alphabet / length 7, 600k random. "
-         "non-trivial = body longer than one byte; distinct = distinct case lines",
+         "non-trivial = body longer than one byte; distinct = distinct case lines. (e) real encodings of packets carrying every special code point / ill-formed UTF-8 sequence in every string-typed field.",
     exhaustive=False,
     modelled="packets/codec.go decode* (entire), packets/properties.go Decode (entire), packets/packets.go all *Decode "
              "methods, packets/fixedheader.go Decode, the type switch of clients.go ReadPacket",
